@@ -240,7 +240,7 @@ def py_filter_funcdefs(s):
     return py_function_nodes(s) == py_function_nodes(s[1:]) and all_funcdefs(py_function_nodes(s))
 
 
-@contract(PY + "PythonNestingAnalyzer.find_all_functions", props=["C01"],
+@contract(PY + "PythonNestingAnalyzer.find_all_functions", props=["C01", "C12"],
           types=dict(self=PyAnalyzerT, tree=PyNode, functions=SeqOf(PyNode), node=PyNode), returns=SeqOf(PyNode))
 class PyFindAllFunctions:
     """Every (async) function definition reachable from the tree exactly once, in ast.walk order (ast.walk trusted)."""
@@ -588,7 +588,7 @@ class TsExtractFunctionExpression:
         return (node, ts_var_name(node, "function_expression"))
 
 
-@contract(FX + "TypeScriptFunctionExtractor.extract_function_info", props=["C01"], types=dict(node=TSNode), returns=Opt(FuncInfoT))
+@contract(FX + "TypeScriptFunctionExtractor.extract_function_info", props=["C01", "C12"], types=dict(node=TSNode), returns=Opt(FuncInfoT))
 class TsExtractFunctionInfo:
     def requires(self, node):
         return node is not None
@@ -597,7 +597,7 @@ class TsExtractFunctionInfo:
         return (node, ts_function_name(node)) if node.type in TS_FUNCTION_TYPES else None
 
 
-@contract(FX + "TypeScriptFunctionExtractor._collect_functions_recursive", props=["C01"],
+@contract(FX + "TypeScriptFunctionExtractor._collect_functions_recursive", props=["C01", "C12"],
           types=dict(node=TSNode, functions=SeqOf(FuncInfoT), func_info=Opt(FuncInfoT), child=TSNode), modifies=["functions"])
 class TsCollectFunctionsRecursive:
     def requires(self, node, functions):
@@ -610,7 +610,7 @@ class TsCollectFunctionsRecursive:
         return old.functions + ts_functions(node) == functions + ts_functions_seq(rest)
 
 
-@contract(FX + "TypeScriptFunctionExtractor.collect_all_functions", props=["C01"], types=dict(self=TsFxT, root_node=TSNode),
+@contract(FX + "TypeScriptFunctionExtractor.collect_all_functions", props=["C01", "C12"], types=dict(self=TsFxT, root_node=TSNode),
           returns=SeqOf(FuncInfoT))
 class TsCollectAllFunctions:
     def requires(self, root_node):
@@ -620,7 +620,7 @@ class TsCollectAllFunctions:
         return ts_functions(root_node)
 
 
-@contract(TS + "TypeScriptNestingAnalyzer.find_all_functions", props=["C01"], types=dict(self=TsAnalyzerT, root_node=TSNode),
+@contract(TS + "TypeScriptNestingAnalyzer.find_all_functions", props=["C01", "C12"], types=dict(self=TsAnalyzerT, root_node=TSNode),
           returns=SeqOf(FuncInfoT))
 class TsFindAllFunctions:
     """Every function of the file is analysed exactly once."""
@@ -648,7 +648,7 @@ def rs_functions_seq(s: SeqOf(TSNode)) -> SeqOf(FuncInfoT):
     return rs_functions(s[0]) + rs_functions_seq(s[1:])
 
 
-@contract(RS + "RustNestingAnalyzer._collect_functions_recursive", props=["C01"],
+@contract(RS + "RustNestingAnalyzer._collect_functions_recursive", props=["C01", "C12"],
           types=dict(node=TSNode, functions=SeqOf(FuncInfoT), name=Str, child=TSNode), modifies=["functions"])
 class RsCollectFunctionsRecursive:
     def requires(self, node, functions):
@@ -661,7 +661,7 @@ class RsCollectFunctionsRecursive:
         return old.functions + rs_functions(node) == functions + rs_functions_seq(rest)
 
 
-@contract(RS + "RustNestingAnalyzer.find_all_functions", props=["C01"], types=dict(self=RsAnalyzerT, root_node=TSNode),
+@contract(RS + "RustNestingAnalyzer.find_all_functions", props=["C01", "C12"], types=dict(self=RsAnalyzerT, root_node=TSNode),
           returns=SeqOf(FuncInfoT))
 class RsFindAllFunctions:
     def ensures_every_function_once(self, root_node, result):
@@ -905,6 +905,25 @@ class ProcessPythonFunctions:
             violations + py_verdicts(rest, config.max_nesting_depth, RULE_ID, context)
 
 
+@contract(LI + "NestingDepthRule._process_python_functions~location", props=["C12"],
+          types=dict(self=RuleT, functions=SeqOf(PyNode), analyzer=PyAnalyzerT, config=NestingConfigT, context=CtxT,
+                     violations=SeqOf(ViolationT), func=PyNode, max_depth=Int, _line=Int, violation=ViolationT),
+          returns=SeqOf(ViolationT))
+class ProcessPythonFunctionsLocation:
+    """C12 view of the Python reporting loop (the depth clauses, incl. the documented one with its known finding, are C01's):
+    every violation is the one of a function of the list, at that function's header line / column, naming it."""
+    def requires(self, functions, analyzer, config, context):
+        return config.max_nesting_depth >= 1 and self._violation_builder.rule_id == RULE_ID and all_funcdefs(functions)
+
+    def ensures_each_violation_at_its_functions_header(self, functions, analyzer, config, context, result):
+        return result == py_verdicts(functions, config.max_nesting_depth, RULE_ID, context)
+
+    def inv0(self, functions, config, context, violations, old, rest):
+        return self == old.self and config == old.config and context == old.context and all_funcdefs(rest) and \
+            py_verdicts(functions, config.max_nesting_depth, RULE_ID, context) == \
+            violations + py_verdicts(rest, config.max_nesting_depth, RULE_ID, context)
+
+
 def ts_depth(func_node):
     """The documented depth of a TypeScript function (= d_ts(func_node), lemma typescript-raw-depth-is-documented-depth)."""
     return imax(ts_raw(func_node), 1)
@@ -927,7 +946,7 @@ def fn_nodes_ok(funcs: SeqOf(FuncInfoT)) -> Bool:
     return len(funcs) == 0 or (funcs[0][0] is not None and fn_nodes_ok(funcs[1:]))
 
 
-@contract(LI + "NestingDepthRule._process_typescript_functions", props=["C01"],
+@contract(LI + "NestingDepthRule._process_typescript_functions", props=["C01", "C12"],
           types=dict(self=RuleT, functions=SeqOf(FuncInfoT), analyzer=TsAnalyzerT, config=NestingConfigT, context=CtxT,
                      violations=SeqOf(ViolationT), func_node=TSNode, func_name=Str, max_depth=Int, _line=Int, violation=ViolationT),
           returns=SeqOf(ViolationT))
@@ -975,7 +994,7 @@ def rs_verdicts(funcs: SeqOf(FuncInfoT), limit: Int, rule_id: Str, context: CtxT
     return rs_verdict(funcs[0], limit, rule_id, context) + rs_verdicts(funcs[1:], limit, rule_id, context)
 
 
-@contract(LI + "NestingDepthRule._process_rust_functions", props=["C01"],
+@contract(LI + "NestingDepthRule._process_rust_functions", props=["C01", "C12"],
           types=dict(self=RuleT, functions=SeqOf(FuncInfoT), config=NestingConfigT, context=CtxT,
                      violations=SeqOf(ViolationT), func_node=TSNode, func_name=Str, max_depth=Int, _line=Int, violation=ViolationT),
           returns=SeqOf(ViolationT))
@@ -1016,7 +1035,7 @@ def py_functions(tree):
     return [node for node in py_walk(tree) if isinstance(node, (ast.FunctionDef, ast.AsyncFunctionDef))]
 
 
-@contract(LI + "NestingDepthRule._analyze_python_tree", props=["C01"],
+@contract(LI + "NestingDepthRule._analyze_python_tree", props=["C01", "C12"],
           types=dict(self=RuleT, tree=PyNode, config=NestingConfigT, context=CtxT), returns=SeqOf(ViolationT))
 class AnalyzePythonTree:
     """Every function definition of the tree is analysed exactly once (ast.walk order)."""
@@ -1027,7 +1046,7 @@ class AnalyzePythonTree:
         return result == py_verdicts(py_functions(tree), config.max_nesting_depth, RULE_ID, context)
 
 
-@contract(LI + "NestingDepthRule._check_python", props=["C01"], types=dict(self=RuleT, context=CtxT, config=NestingConfigT),
+@contract(LI + "NestingDepthRule._check_python", props=["C01", "C12"], types=dict(self=RuleT, context=CtxT, config=NestingConfigT),
           returns=SeqOf(ViolationT),
           assumed="with_parsed_python (higher-order helper around the CPython parser): parses the file content and applies "
                   "_analyze_python_tree to the Module node; the SyntaxError branch is outside the model (C01 quantifies "
@@ -1039,7 +1058,7 @@ class CheckPython:
 
 
 
-@contract(LI + "NestingDepthRule._check_typescript", props=["C01"],
+@contract(LI + "NestingDepthRule._check_typescript", props=["C01", "C12"],
           types=dict(self=RuleT, context=CtxT, config=NestingConfigT, root_node=Opt(TSNode), functions=SeqOf(FuncInfoT)),
           returns=SeqOf(ViolationT))
 class CheckTypescript:
@@ -1052,7 +1071,7 @@ class CheckTypescript:
                           ts_verdicts(ts_functions(ts_root(content_of(context))), config.max_nesting_depth, RULE_ID, context))
 
 
-@contract(LI + "NestingDepthRule._check_rust", props=["C01"],
+@contract(LI + "NestingDepthRule._check_rust", props=["C01", "C12"],
           types=dict(self=RuleT, context=CtxT, config=NestingConfigT, root_node=Opt(TSNode), functions=SeqOf(FuncInfoT)),
           returns=SeqOf(ViolationT))
 class CheckRust:
@@ -1301,7 +1320,7 @@ def nesting_verdicts(context, limit):
             if context.language == "rust" else []))
 
 
-@contract(BASE_CHECK + "~nesting", props=["C01"], types=dict(self=RuleT, context=CtxT, config=NestingConfigT),
+@contract(BASE_CHECK + "~nesting", props=["C01", "C12"], types=dict(self=RuleT, context=CtxT, config=NestingConfigT),
           returns=SeqOf(ViolationT), raises=["ValueError"], inline=["has_file_content", "_dispatch_by_language"])
 class NestingRuleCheck:
     """NestingDepthRule.check (inherited from MultiLanguageLintRule, verified here for the nesting rule): nothing without
